@@ -21,6 +21,7 @@ type bfsCheck struct {
 	minClasses int // vacuity guard: at least this many distinct outcome classes must be seen
 	propFilter string // when set, only violations whose signature starts with "<prop>:" are this check's; others are printed as notes
 	variants   []string // further configurations searched by the same check; spec receives "<tier>/<variant>"
+	extra      func(r *ev.Run, tier string) (evals, nontrivial int64) // a further exhaustive enumeration reported in the same evidence file
 }
 
 func registerBFS(b bfsCheck) {
@@ -90,8 +91,12 @@ func runBFS(b bfsCheck, tier string) int {
 			r.Violation(f.Sig, f.Detail, map[string]interface{}{"engine": "bfs", "check": b.id, "tier": vt, "history": f.History})
 		}
 	}
+	var evals, nontrivial int64
+	if b.extra != nil {
+		evals, nontrivial = b.extra(r, tier)
+	}
 	return r.Finish(ev.Coverage{
-		States: states, Transitions: trans, Traces: traces,
+		States: states, Transitions: trans, Traces: traces, Evaluations: evals, Distinct: nontrivial,
 		Rule: b.rule, Exhaustive: exhaustive, Bounds: b.bounds(tier), Assumptions: b.assume,
 	})
 }
